@@ -164,6 +164,31 @@ fn main() {
         let (a, b) = (syms[0].clone(), rng.bytes(ss + 1));
         op(&mut rec, &format!("Symbol of {ss} bytes += Symbol of {} bytes (length mismatch)", ss + 1), move || { let mut x = Symbol::new(a); let y = Symbol::new(b); x += &y; });
     }
+    // the binary kernels read a *packed* bit vector that lives in an exactly sized heap Vec<u64> (as in the solver):
+    // every path, lengths around the vector widths, word patterns with zero runs and an all-zero last / first word
+    {
+        use raptorq::verif::verif_kernels as vk;
+        let mut lens: Vec<usize> = vec![1, 2, 63, 64, 65, 127, 128, 129, 191, 192, 193, 255, 256, 257, 320, 448, 1000];
+        if thorough { lens.extend([3usize, 31, 32, 33, 100, 384, 385, 511, 512, 513, 640, 2048, 4099]); }
+        for level in [vk::PORTABLE, vk::SSSE3, vk::AVX2, vk::AVX512] {
+            for &len in &lens {
+                for pat in 0..6u32 {
+                    let nwords = (len + 63) / 64;
+                    let words: Vec<u64> = (0..nwords).map(|i| match pat { 0 => 0, 1 => u64::MAX, 2 => if i == nwords - 1 { 0 } else { rng.next() }, 3 => if i == 0 { 0 } else { rng.next() }, 4 => if i % 2 == 0 { 0 } else { rng.next() }, _ => rng.next() }).collect();
+                    let words = words.into_boxed_slice().into_vec();
+                    let d = rng.bytes(len);
+                    let c = if pat % 2 == 0 { 1u8 } else { 7 };
+                    op(&mut rec, &format!("fused_addassign_mul_scalar_binary path={level} len={len} scalar={c}, packed words (pattern {pat}: 0 zeros, 1 ones, 2 last word zero, 3 first word zero, 4 alternating, 5 random) in an exactly sized Vec<u64>"), move || {
+                        let bv = raptorq::verif::BinaryOctetVec::new(words, len);
+                        let mut d = d;
+                        let exact = vk::supported("fmabin", level);
+                        vk::fma_binary_at(level, exact, &mut d, &bv, &Octet::new(c));
+                        std::hint::black_box(d[0]);
+                    });
+                }
+            }
+        }
+    }
     // codec: round trips with losses (solver on both back-ends), and packets whose payload is too short / too long
     for it in 0..(if thorough { 24 } else { 8 }) {
         let k = rng.range(4, 40) as u32;
